@@ -23,3 +23,19 @@ def canary():
 
 
 R.canaries.append(("haplotagphase.py:canary#always-reaches-threshold", canary))
+
+
+def CROSSCHECK():
+    from vcgen.crosscheck import Case
+
+    def gen(rng):
+        ref = "".join(rng.choice("AAC") for _ in range(rng.randint(0, 9)))
+        return dict(ref=ref, start=rng.randint(0, max(0, len(ref) - 1)) if rng.random() < 0.9 else rng.randint(-2, len(ref) + 1), step=rng.choice([1, -1, 2]), threshold=rng.randint(0, 6))
+
+    def real(inp):
+        from whatshap.cli.haplotagphase import length_of_homopolymer
+        try:
+            return ("ok", length_of_homopolymer(inp["ref"], inp["start"], inp["step"], inp["threshold"]), {})
+        except Exception as e:      # noqa: BLE001
+            return ("raise", type(e).__name__)
+    return [Case("length_of_homopolymer", gen, real, n=150)]
